@@ -301,6 +301,14 @@ class Ownership:
         for f in rel.coll.methods.values():
             writes = [n for n in walk_no_nested(f.node) if isinstance(n, ast.Assign)
                       and any(isinstance(t, ast.Attribute) and t.attr == bp for t in n.targets)]
+            tuple_writes = [n for n in walk_no_nested(f.node) if isinstance(n, ast.Assign)
+                            and any(isinstance(t, (ast.Tuple, ast.List)) and any(
+                                isinstance(e, ast.Attribute) and e.attr == bp for e in t.elts) for t in n.targets)]
+            for tw in tuple_writes:
+                self.add("C04", "R03.3", "%s:bp-tuple-assignment" % f.qualname, False, f.loc(tw),
+                         "%s assigns %s inside a tuple assignment (%s): the element is re-linked before it "
+                         "has left its previous owner, whose discard then clears the new link"
+                         % (f.qualname, bp, unparse(tw)[:60]), 2)
             al = local_aliases(f.node)
             a = [w for w in writes if expand_path(w.value, al) == (f.self_name, "_node")]
             d = [w for w in writes if isinstance(w.value, ast.Constant) and w.value.value is None]
